@@ -91,7 +91,7 @@ class SdoGetItem(Contract):
     def setup(self, w, case):
         return Call(("func", "env.drivers", "sdo_getitem"), [])
 
-    ensures = {"same-entry-by-index-name-dotted": lambda s: And(s.returned, s.ret is True)}
+    ensures = {"same-entry-by-index-name-dotted": lambda s: And(s.returned, S.is_true(s.ret))}
 
 
 @contract
